@@ -136,6 +136,20 @@ static void part_c(Ctx& ctx, int which, int j) {
       if (!(err <= 0.5Q)) { ctx.violation(id, sfmt("x=%a d=2^%d: returned %lld, x/d=%.20g (error %.3g > 1/2)", x.as<double>()[i], j, (long long)r.as<int64_t>()[i], (double)q, (double)err)); base = Y.size(); break; }
     }
   }
+  // in place (r == x, the way the module's inverse DFT calls this conversion), the vector at every 8-byte alignment modulo 32
+  for (size_t off : {0, 8, 16, 24}) {
+    GBuf z(2 * m * 8, off);
+    for (size_t base = 0; base < Y.size(); base += 2 * m) {
+      for (uint64_t i = 0; i < 2 * m; ++i) { x.as<double>()[i] = Y[std::min(base + i, Y.size() - 1)] * d; z.as<double>()[i] = x.as<double>()[i]; }
+      f(&pc, z.as<int64_t>(), z.p);
+      for (uint64_t i = 0; i < 2 * m; ++i) {
+        q128 q = (q128)x.as<double>()[i] / (q128)d;
+        q128 err = fabsq((q128)z.as<int64_t>()[i] - q);
+        if (!(err <= 0.5Q)) { ctx.violation(id, sfmt("in place (vector at %zu modulo 32), slot %llu: x=%a d=2^%d: returned %lld, x/d=%.20g (error %.3g > 1/2)", off, (unsigned long long)i, x.as<double>()[i], j, (long long)z.as<int64_t>()[i], (double)q, (double)err)); base = Y.size(); break; }
+      }
+    }
+    if (!z.guards_ok()) ctx.violation(id, "write outside a declared extent (in place)");
+  }
   // every probe once more on its own: one probe per call (its position moves through the vector), all other slots hold a
   // small quotient - a kernel that chooses its path per group of slots must be right when the group mixes magnitudes
   for (size_t t = 0; t < Y.size(); ++t) {
@@ -269,6 +283,12 @@ static void part_f(Ctx& ctx, uint64_t m, const CpuCfg& cfg) {
     for (size_t base = 0; base < Y.size(); base += n) {
       for (uint64_t i = 0; i < n; ++i) x.as<double>()[i] = Y[std::min(base + i, Y.size() - 1)] * d;
       reim_to_znx64(p, r.as<int64_t>(), x.p); reim_to_znx64_simple(m, d, lb, r2.as<int64_t>(), x.p);
+      { GBuf z(n * 8, 8 * (1 + (lb + base) % 3));  // in place, vector not 32-byte aligned
+        memcpy(z.p, x.p, n * 8); reim_to_znx64(p, z.as<int64_t>(), z.p);
+        for (uint64_t i = 0; i < n; ++i) { q128 q = (q128)x.as<double>()[i] / (q128)d;
+          if (!(fabsq((q128)z.as<int64_t>()[i] - q) <= 0.5Q)) { ctx.violation(id, sfmt("reim_to_znx64 in place (log2bound %u, divisor 2^%d, vector at %zu modulo 32): x/d=%.20g gives %lld", lb, j, z.off, (double)q, (long long)z.as<int64_t>()[i])); base = Y.size(); break; } }
+        if (!z.guards_ok()) ctx.violation(id, "write outside a declared extent (double -> int64 in place)"); }
+      if (base >= Y.size()) break;
       for (uint64_t i = 0; i < n; ++i) {
         q128 q = (q128)x.as<double>()[i] / (q128)d;
         if (!(fabsq((q128)r.as<int64_t>()[i] - q) <= 0.5Q) || !(fabsq((q128)r2.as<int64_t>()[i] - q) <= 0.5Q)) { ctx.violation(id, sfmt("reim_to_znx64 (log2bound %u, divisor 2^%d): x/d=%.20g gives %lld / simple %lld", lb, j, (double)q, (long long)r.as<int64_t>()[i], (long long)r2.as<int64_t>()[i])); base = Y.size(); break; }
